@@ -148,13 +148,15 @@ def spelling_of(rng, t, fault=None):
                 v = ','.join(f'{rcase(rng, a) if a.isascii() else a}:{rcase(rng, b.hex())}' for a, b in ents)
             m = '&?' + ('' if has_sub else '#')
             if rng.random() < 0.3:
-                # an empty-valued qualifier, with a fresh key or the key of a later item
+                # an empty-valued qualifier, with a fresh key or the key of a later item (never the key of an earlier non-empty one)
                 ek = rng.choice(keys[i:]) if rng.random() < 0.5 else 'zz' + rkey(rng)
                 if ek.lower() not in [x.lower() for x in keys[:i]]:
                     items.append(rcase(rng, ek) + '=')
             items.append(rcase(rng, k) + '=' + spell(rng, v, m))
         if rng.random() < 0.2:
-            items.append('zz' + rkey(rng) + '=')
+            ek = 'zz' + rkey(rng)
+            if ek.lower() not in [x.lower() for x in keys]:
+                items.append(ek + '=')
         s += '?' + '&'.join(items)
     if fault and fault.get('sub_raw') is not None:
         s += '#' + fault['sub_raw']
